@@ -273,3 +273,46 @@ func H_C07_nested_anonymous() {
 	vAssert(err == nil && out2 == out1, "C07 nested anonymous struct: second run leaves the file byte-for-byte unchanged")
 	vReach("end")
 }
+
+// ---- round 4 ----
+
+// lines longer than the buffers of line-oriented readers (bufio.Reader: 4096 bytes, bufio.Scanner: 64 KiB), as
+// generated code has them (file descriptors, embedded tables): before the struct, inside the struct's trailing
+// comment, after it; a file without annotations is unchanged, an annotated one changes inside the tag literal
+// only, and the second run changes nothing
+func vLongLine(n int) string {
+	b := make([]byte, n)
+	for i := range b {
+		b[i] = byte('a' + i%26)
+	}
+	return string(b)
+}
+
+func H_C07_long_lines() {
+	n := []int{4095, 4096, 5000, 70000}[vndChoice("len", 4)]
+	long := "// " + vLongLine(n) + "\n"
+	where := vndChoice("where", 3)
+	pre, post, cmt := "", "", "// plain"
+	switch where {
+	case 0:
+		pre = long
+	case 1:
+		post = long + "var Last = 1\n"
+	case 2:
+		cmt = "// " + vLongLine(n)
+	}
+	annotated := vndBool("annotated")
+	fields := []vField{{name: "X", typ: "string", hasTag: true, tag: "json:\"x\"", comment: cmt}, {name: "Y", typ: "int", hasTag: true, tag: "json:\"y\""}}
+	wantFields := []vField{fields[0], fields[1]}
+	if annotated {
+		fields[1].comment = "// @tag valid:\"required\""
+		wantFields[1] = vField{name: "Y", typ: "int", hasTag: true, tag: "json:\"y\" valid:\"required\"", comment: "// @tag valid:\"required\""}
+	}
+	src, f := vBuildSource(pre, []vStructSrc{{name: "A", fields: fields}}, post)
+	want, f2 := vBuildSource(pre, []vStructSrc{{name: "A", fields: wantFields}}, post)
+	out1, err := vRunInjector("p.go", src, f)
+	vAssert(err == nil && out1 == want, "C07 long lines: only the tag literal of the annotated field changes")
+	out2, err := vRunInjector("p.go", out1, f2)
+	vAssert(err == nil && out2 == want, "C07 long lines: the second run changes nothing")
+	vReach("end")
+}
